@@ -17,6 +17,7 @@ def parse_runs(pid, props, nq, nt, wq, wt, mq, mt, extra=(), ip6=False):
         if w is not None: rs.append(R('parseW', 'h_parse.c', P + ['WIDE', 'NMAX=%d' % w], 'W: all wchar_t strings (32-bit values) of length 0..%d' % w, ['accepted'], budget))
         if m is not None: rs.append(R('parseIP', 'h_parse.c', P + ['PREFIX="//["', 'NMAX=%d' % m], 'A: "//[" followed by every char string of length 0..%d' % m, ['host-ip6', 'rejected-inside-ip-literal'] + (['host-ipfuture'] if m >= 5 else []), budget))
         if ip6:
+            rs.append(R('entry-points', 'h_entry.c', ['NMAX=%d' % (4 if budget < 1000 else 5)], 'uriParseUriEx, uriParseUri, uriParseSingleUri, uriParseSingleUriEx(NULL afterLast) against uriParseSingleUriExMm: all NUL-terminated char strings of length 0..%d with the first NUL at any position' % (4 if budget < 1000 else 5), ['uriParseUriEx', 'uriParseUri', 'uriParseSingleUri', 'uriParseSingleUriEx-NULL-afterLast', 'accepted', 'rejected'], budget, all_props=True))
             rs.append(R('parseIP6gen', 'h_parse.c', P + ['IP6GEN'] + (['IP6_WIDE_HEX'] if budget > 1000 else []), 'A: "//[" + shape-bounded IPv6 literal + "]": 0..8 one-digit groups before/after an optional "::", one group of 1..5 digits (thorough: hex digits of both cases), optional IPv4 tail of 3..5 octets with one octet of 1..4 digits; valid and invalid layouts', ['host-ip6', 'rejected-inside-ip-literal'], budget * 2))
         return rs
     return {'quick': mk(nq, wq, mq, 400) + list(extra), 'thorough': mk(nt, wt, mt, 2400) + list(extra)}
